@@ -56,7 +56,7 @@ def main():
         meta["checks"] = {}
         for pr in [prop] + extra_props:
             t0 = time.time()
-            rc, out = run([os.path.join(VERIF, "check"), pr, "--tier", "quick"], cwd=VERIF, env={"VERIF_REPO": mut, "VERIF_SEED": "0"})
+            rc, out = run([os.path.join(VERIF, "check"), pr, "--tier", "quick"], cwd=VERIF, env={"VERIF_REPO": mut, "VERIF_SEED": "0", "VERIF_EVIDENCE_DIR": os.path.join(work, "evidence")})
             lines = [l for l in out.splitlines() if "VIOLATION" in l or l.startswith("OK ") or "violating input" in l or "broken obligation" in l]
             meta["checks"][pr] = {"exit": rc, "wall_s": round(time.time() - t0, 1), "verdict": [l[:400] for l in lines][:6]}
             meta["ran"].append(f"VERIF_REPO=<patched copy> ./check {pr} --tier quick")
